@@ -1,16 +1,24 @@
 META = dict(
     engine='cosched',
     technique='stateless model checking: preemption-bounded exhaustive schedule enumeration (CHESS) of the real parsec_lifo_t, linearizability by brute force',
-    level_text='Every schedule with <= b preemptions (b=2 quick, 4 thorough) of six 2-3 thread scripts (ABA seekers, chain, try_pop) over the real LIFO is executed; each history is checked for linearizability against a sequential stack plus conservation of items and absence of cycles.',
+    level_text='Every schedule with <= b preemptions (b=2..4 per script in quick - 4 for the two-thread ABA seeker -, 3..6 in thorough) of six 2-3 thread scripts (ABA seekers, chain, try_pop) over the real LIFO is executed; each history is checked for linearizability against a sequential stack plus conservation of items and absence of cycles.',
     level_note='Sequential consistency at instrumented accesses (gcc -fsanitize=thread instrumentation + own runtime); 2-3 threads, <= 4 operations per thread; weak-memory effects (missing fences) are out of reach.',
 )
 RULE = ("cosched: every schedule of each 2-3 thread script over the real parsec_lifo_t with at most b preemptions "
         "(scheduling points = every instrumented access to the lifo head and the items' links); a schedule is "
         "non-trivial when it contains at least one preemption; states = nodes of the explored schedule tree")
+QUICK = [('aba_pop_vs_pop_pop_push', 4), ('chain_order', 4), ('push_pop_push', 3), ('trypop_trypop_push', 3), ('chain_pop_push', 2), ('aba3', 2)]
+THOROUGH = [('aba_pop_vs_pop_pop_push', 6), ('chain_order', 6), ('push_pop_push', 4), ('trypop_trypop_push', 4), ('aba3', 3), ('chain_pop_push', 3)]
 def check(ctx):
+    # one engine invocation per script: small scripts go deeper (the seeded "counter read after the item"
+    # change needs 3 preemptions of a 2-thread script), cheapest first so a deadline cuts the biggest last
     exe = ctx.compile('hk-shm', 'lifo', ['lifo_h.c'], engine='cosched')
-    bound = 2 if ctx.tier == 'quick' else 4
-    ctx.run_cosched(exe, bound, deadline=(240 if ctx.tier == 'quick' else 1500))
+    plan = QUICK if ctx.tier == 'quick' else THOROUGH
+    budget = 60 if ctx.tier == 'quick' else 1200
+    ctx.set_budget(budget)
+    for i, (sc, b) in enumerate(plan):
+        share = max(5, ctx.remaining() / (len(plan) - i))
+        ctx.run_cosched(exe, b, scenario=sc, deadline=share, label='lifo-%s-b%d' % (sc, b))
     return ctx.finish(RULE, ["sequential consistency at instrumented accesses (no weak-memory effects)",
                              "gcc -fsanitize=thread instrumentation reports every access to the watched objects"])
 def replay(ctx, path, obj):
